@@ -26,7 +26,7 @@ RULE = ('task histories: 0-40 tasks, each ok / failing (Exception or BaseExcepti
 ASSUMPTIONS = ['tasks are shorter than flush\'s own 10 s per-task wait', 'a refused post-close submission may raise any exception type']
 REQUIRE = {'tasks_tracked': 2000, 'flushes_checked': 300, 'flush_with_running_failure': 80, 'sends_checked': 1500,
            'failed_sends': 100, 'unconvertible': 100, 'post_close_submits': 200, 'yield_points': 2000,
-           'submits_during_flush': 30, 'twin_handler_flushes': 40, 'backlog_flushes': 1,
+           'submits_during_flush': 30, 'twin_handler_flushes': 40, 'backlog_flushes': 1, 'flushes_over_a_draining_queue': 8,
            'concurrent_second_flushes': 20, 'racing_submitters': 60,
            'bursts_of_baseexception_tasks': 10, 'handovers_to_a_closed_pool': 40}
 
@@ -34,7 +34,8 @@ REQUIRE = {'tasks_tracked': 2000, 'flushes_checked': 300, 'flush_with_running_fa
 def plan(tier, seed):
     n = {'quick': 1, 'thorough': 15}[tier]
     return (split_seeds('t%s' % seed, 400 * n, 8, 'tasks') + split_seeds('p%s' % seed, 320 * n, 8, 'push') +
-            split_seeds('w%s' % seed, 40 * n, 2, 'twin') + split_seeds('b%s' % seed, 1 if tier == 'quick' else 3, 3, 'backlog'))
+            split_seeds('w%s' % seed, 40 * n, 2, 'twin') + split_seeds('b%s' % seed, 1 if tier == 'quick' else 3, 3, 'backlog') +
+            split_seeds('d%s' % seed, 4 * n, 4, 'drain'))
 
 
 class BaseBoom(BaseException):
@@ -404,6 +405,57 @@ def case_backlog(seed, out, spec):
     out.case({'backlog': n, 'dur': dur}, nontrivial=True, sample=witness)
 
 
+def case_drain(seed, out, spec):
+    """flush() is called while the workers are completing a long queue of very short tasks: tasks finish (and leave the
+    pending table) at every instant of flush's own work. It returns normally with every task run exactly once."""
+    import sys
+    from deep.task import TaskHandler
+    r = Rng('c09d', seed)
+    old = sys.getswitchinterval()
+    sys.setswitchinterval(r.pick([1e-5, 5e-5, 1e-4]))
+    try:
+        for rnd in range(4):
+            h = TaskHandler()
+            n = r.pick([1500, 2500, 3500])
+            done = []
+            for i in range(n):
+                h.submit_task(done.append, i)
+            raised = []
+            t = threading.Thread(target=lambda: _flush_into(h, raised), name='vf-drain-flush')
+            t.start()
+            t.join(40)
+            witness = {'tasks': n, 'round': rnd, 'finished_when_flush_returned': len(done)}
+            if t.is_alive():
+                out.inconc('C09 drain: flush did not return within the watchdog')
+                _close(h)
+                return
+            if raised:
+                out.violation('flush:raised', 'flush() raised %r while the workers were completing a queue of %d short '
+                                              'tasks' % (raised[0], n), witness, replay_spec(spec, seed))
+                _close(h)
+                return
+            if sorted(done) != list(range(n)):
+                missing = n - len(set(done))
+                mech = 'flush:returned-early' if missing else 'delivery:ran-twice'
+                out.violation(mech, 'after flush() %d of %d short tasks had run (%d distinct)' % (
+                    len(done), n, len(set(done))), witness, replay_spec(spec, seed))
+                _close(h)
+                return
+            _close(h)
+            out.count('tasks_tracked', n)
+            out.count('flushes_over_a_draining_queue')
+    finally:
+        sys.setswitchinterval(old)
+    out.case({'drain': seed}, nontrivial=True, sample={'rounds': 4})
+
+
+def _flush_into(handler, raised):
+    try:
+        handler.flush()
+    except BaseException as e:  # noqa
+        raised.append(e)
+
+
 def _close(handler):
     try:
         handler._pool.shutdown(wait=False)
@@ -415,9 +467,9 @@ def mk_snapshot(i, bad=False):
     from deep.api.resource import Resource
     from deep.api.tracepoint import TracePointConfig, EventSnapshot, StackFrame, Variable, VariableId
     lookup = {'1': Variable('str', 'value-%d' % i, '100%d' % i, [], False)}
-    if bad:
-        lookup['2'] = Variable('str', 12345 + i, 'h', [], False)  # a non-text value cannot be encoded
-    frames = [StackFrame('/app/f.py', 'f.py', 'fn', 10 + i, [VariableId('1', 'v')], None, app_frame=True)]
+    # (bad: a line number that is not a number has no wire form)
+    frames = [StackFrame('/app/f.py', 'f.py', 'fn', 'line-%d' % i if bad else 10 + i, [VariableId('1', 'v')], None,
+                         app_frame=True)]
     return EventSnapshot(TracePointConfig('tp-%d' % i, 'f.py', 10, {}, [], []), 1000 + i, Resource.get_empty(),
                          frames, lookup)
 
@@ -557,5 +609,7 @@ def run_shard(spec, out):
             case_twin(seed, out, spec)
         elif spec['kind'] == 'backlog':
             case_backlog(seed, out, spec)
+        elif spec['kind'] == 'drain':
+            case_drain(seed, out, spec)
         else:
             case_push(seed, out, spec)
